@@ -115,6 +115,8 @@ var Check = &vrt.Check{
 var (
 	loginAPIs    = []string{"ctx", "bg", "timeout", "url", "urlparse", "dialer", "urlctx", "regctx"}
 	deadlineAPIs = []string{"ctx", "timeout", "url", "dialer", "urlctx", "urlparse", "dialer-reused", "regctx"}
+	// entry points that are given two limits, the earlier of which is the deadline under test
+	mixedLimitAPIs = []string{"dialer-laterctx", "param-laterctx", "dialer-earlierctx", "param-earlierctx"}
 )
 
 func plan(seed int64, tier string) []vrt.Case {
@@ -224,6 +226,14 @@ func plan(seed int64, tier string) []vrt.Case {
 	}
 	for _, kind := range []string{"silent", "prompt-then-silence", "partial-prompt"} {
 		add(params{Leg: "deadline", API: "dialer-reused", Kind: kind, DMs: 300, Call: []byte("LA5NTA"), PW: []byte("secret")})
+	}
+
+	// two limits at once - the Dialer's Timeout or the dial_timeout parameter AND the caller's context: the dial has to return
+	// by the EARLIER one, whichever of the two that is (the other one lies 3 s later)
+	for _, api := range mixedLimitAPIs {
+		for _, kind := range []string{"silent", "prompt-then-silence", "partial-prompt", "syn-unanswered"} {
+			add(params{Leg: "deadline", API: api, Kind: kind, DMs: 300, Call: []byte("LA5NTA"), PW: []byte("secret")})
+		}
 	}
 
 	// ---- PRNG volume ----
@@ -389,6 +399,24 @@ func prepDial(api, addr, call, pw string, timeout time.Duration) (do func() (net
 			ctx, cancel := context.WithTimeout(context.Background(), timeout)
 			defer cancel()
 			return transport.DialURLContext(ctx, u)
+		}, false
+	case "dialer-laterctx", "param-laterctx", "dialer-earlierctx", "param-earlierctx":
+		const later = 3 * time.Second
+		dialerT, paramT, ctxT := timeout, time.Duration(0), timeout+later
+		switch api {
+		case "param-laterctx":
+			dialerT, paramT = time.Minute, timeout
+		case "dialer-earlierctx":
+			dialerT, ctxT = timeout+later, timeout
+		case "param-earlierctx":
+			dialerT, paramT, ctxT = time.Minute, timeout+later, timeout
+		}
+		u, _ := mkURL("url", addr, call, pw, paramT, paramT > 0)
+		return func() (net.Conn, error) {
+			ctx, cancel := context.WithTimeout(context.Background(), ctxT)
+			defer cancel()
+			d := telnet.Dialer{Timeout: dialerT}
+			return d.DialURLContext(ctx, u)
 		}, false
 	case "urlctx":
 		u, _ := mkURL("url", addr, call, pw, timeout, false)
